@@ -8,6 +8,7 @@
   segment lists through `Path.prefix_of_string_test`.
 -/
 import AferoVerif.Proofs.Path
+import AferoVerif.Model.BasePathFs
 namespace AferoVerif.C08
 open AferoVerif AferoVerif.Path
 
@@ -138,5 +139,69 @@ example : httpPath (s "/base") (s "../../secret") = s "/base/secret" := by decid
 /-- the hypothesis "root is absolute" matters: a relative root that cleans to `..` confines
     nothing (which is why the theorem does not claim it) -/
 example : realPath (s "..") (s "x") = some (s "../x") := by decide
+
+/-! ### every method of the wrapper: the names that reach the source are confined -/
+
+/-- the name arguments of a call -/
+def opNames : Op → List Str
+  | .create p | .mkdir p _ | .mkdirAll p _ | .open_ p | .openFile p _ _ | .remove p | .removeAll p
+  | .stat p | .chmod p _ | .chown p _ _ | .chtimes p _ => [p]
+  | .rename a b => [a, b]
+  | _ => []
+
+def Confined (D p : Str) : Prop :=
+  p = render true (segsOf p) ∧ (∀ x ∈ segsOf p, Normal x) ∧ segsOf D <+: segsOf p
+
+theorem single_confined (D : Str) (hD : isRooted D = true) (mk : Str → Op) (hmk : ∀ q, opNames (mk q) = [q])
+    (p0 : Str) (op' : Op) (h : (realPath D p0).map mk = some op') : ∀ p ∈ opNames op', Confined D p := by
+  cases hr : realPath D p0 with
+  | none => rw [hr] at h; cases h
+  | some q =>
+    rw [hr] at h
+    injection h with h; subst h
+    intro p hp
+    rw [hmk] at hp
+    simp only [List.mem_cons, List.mem_nil_iff, or_false] at hp
+    subst hp
+    exact realPath_confined D p0 _ hD hr
+
+/-- **C08, every Fs method.** Whatever call is made on a base-path filesystem rooted at an absolute
+    `D` — Create, Mkdir, MkdirAll, Open, OpenFile, Remove, RemoveAll, Stat, Chmod, Chown, Chtimes,
+    both arguments of Rename — every name that is handed to the underlying filesystem is a cleaned
+    absolute path whose segments extend the root's (`Confined`); and if any argument would leave
+    the root the underlying filesystem is not called at all, the answer is not-exist and nothing
+    changes (`bp_escape_inert`). -/
+theorem bp_every_name_confined (D : Str) (hD : isRooted D = true) (op op' : Op) (h : bpMapOp D op = some op')
+    (hn : opNames op ≠ []) : ∀ p ∈ opNames op', Confined D p := by
+  cases op with
+  | create p => exact single_confined D hD .create (fun _ => rfl) p op' h
+  | mkdir p perm => exact single_confined D hD (.mkdir · perm) (fun _ => rfl) p op' h
+  | mkdirAll p perm => exact single_confined D hD (.mkdirAll · perm) (fun _ => rfl) p op' h
+  | open_ p => exact single_confined D hD .open_ (fun _ => rfl) p op' h
+  | openFile p f perm => exact single_confined D hD (.openFile · f perm) (fun _ => rfl) p op' h
+  | remove p => exact single_confined D hD .remove (fun _ => rfl) p op' h
+  | removeAll p => exact single_confined D hD .removeAll (fun _ => rfl) p op' h
+  | stat p => exact single_confined D hD .stat (fun _ => rfl) p op' h
+  | chmod p m => exact single_confined D hD (.chmod · m) (fun _ => rfl) p op' h
+  | chown p u g => exact single_confined D hD (.chown · u g) (fun _ => rfl) p op' h
+  | chtimes p t => exact single_confined D hD (.chtimes · t) (fun _ => rfl) p op' h
+  | rename a b =>
+    simp only [bpMapOp] at h
+    split at h
+    · rename_i a' b' ha hb
+      injection h with h; subst h
+      intro p hp
+      simp only [opNames, List.mem_cons, List.mem_nil_iff, or_false] at hp
+      rcases hp with rfl | rfl
+      · exact realPath_confined D a _ hD ha
+      · exact realPath_confined D b _ hD hb
+    · cases h
+  | hRead _ _ | hReadAt _ _ _ | hWrite _ _ | hWriteAt _ _ _ | hTrunc _ _ | hSeek _ _ _ | hClose _ | hName _
+  | hStat _ | hSync _ | hReaddir _ _ | hReaddirnames _ _ => exact absurd rfl hn
+
+theorem bp_escape_inert (src : StepFn) (D : Str) (m : MemFs) (op : Op) (h : bpMapOp D op = none) (hh : ∀ i, op ≠ .hName i) :
+    bpStep src D m op = (m, .err .notexist) := by
+  unfold bpStep
+  cases op <;> simp_all
 
 end AferoVerif.C08
